@@ -160,12 +160,16 @@ def delete_tables_with_prefix(sqlite_db_path: str | Path, prefix: str) -> None:
     :param prefix: Table name prefix to match
     """
     with create_sqlite_connection(sqlite_db_path) as conn:
-        cursor = conn.execute(
-            "SELECT name FROM sqlite_master WHERE type='table' AND name LIKE ?",
-            (f"{prefix}%",),
-        )
+        cursor = conn.execute("SELECT name FROM sqlite_master WHERE type='table'")
         try:
-            tables = [row[0] for row in cursor.fetchall()]
+            # Exact, case-sensitive match of "<prefix>_<table>": LIKE would treat "_" as a
+            # wildcard, and another app whose id merely starts with this prefix has its own
+            # "<...>__<component>" part after it, so its tables are recognised by the "__".
+            tables = [
+                row[0]
+                for row in cursor.fetchall()
+                if row[0].startswith(f"{prefix}_") and "__" not in row[0][len(prefix) :]
+            ]
         finally:
             try:
                 cursor.close()
